@@ -56,6 +56,8 @@ ASSUMPTIONS = [
     'stream; the product\'s reading of its tables is recorded next to it only to name the input class (site field '
     '`input`: own_unattached / shared_blob / claimed_length) in which the two differ',
     'a blob shared by an own and a foreign stream is not generated',
+    'removable = not published by the user: content blobs and descriptor blobs of foreign stored streams are removable '
+    'by the content pass with or without a `file` row (site field `input` gets no_file_row when such blobs exist)',
     'content usage: "deleted although within the limit" only when floor((content+own)/MiB) <= limit, "still over" only '
     'when floor(content/MiB)+floor(own/MiB) > limit (the pass\'s own reading); in between either behaviour is accepted',
     'descriptor (sd) blobs of stored streams are outside the usage accounting; a foreign finished sd blob deleted by '
@@ -73,7 +75,7 @@ EXPECTED_PROBES = ['pass_content_over', 'pass_content_within', 'pass_content_equ
                    'restart', 'restart_files_missing', 'restart_files_back', 'own_row_pending_after_start', 'own_reensured',
                    'daemon_start', 'sd_blob_lost', 'recovery_ran', 'own_stream_recovered', 'publish_interrupted',
                    'shared_stream', 'claimed_length_first', 'pass_with_own_unattached', 'pass_with_shared_blob',
-                   'pass_with_claimed_length']
+                   'pass_with_no_file_row']   # pass_with_claimed_length: only while add_blobs keeps a claimed length
 
 MIB = be.MIB
 _DROP = object()
@@ -327,16 +329,18 @@ class Model:
         self.own_unattached = 0
         self.shared_finished = 0
         self.length_differs = {'content': 0, 'network': 0}
-        self.rem_content = set()       # foreign finished content blobs of streams with a file row
-        self.rem_content_sd = set()    # descriptor blobs of foreign streams with a file row
+        # removable = not published by the user (the statement); whether the stream has a `file` row is the
+        # product's business: its usage counts these blobs as content either way
+        self.rem_content = set()       # foreign finished content blobs of stored streams
+        self.rem_content_sd = set()    # descriptor blobs of foreign stored streams
+        self.no_file_row = 0           # removable content blobs none of whose streams has a `file` row
         self.rem_network = set()       # foreign finished blobs outside any stream
         self.stream_sd_finished = set()  # foreign finished descriptor blobs of stored streams
         for s, sd in sd_of.items():
             row = self.rows.get(sd)
             if row is None or row[2] or sd in published:
                 continue
-            if s in with_file:
-                self.rem_content_sd.add(sd)
+            self.rem_content_sd.add(sd)
             if row[1] == 'finished':
                 self.stream_sd_finished.add(sd)
         for h, (db_len, status, flag, _a) in self.rows.items():
@@ -362,8 +366,9 @@ class Model:
                     self.length_differs['content'] += 1
                 if not mine:
                     self.content += length
-                    if streams & with_file:
-                        self.rem_content.add(h)
+                    self.rem_content.add(h)
+                    if not streams & with_file:
+                        self.no_file_row += 1
             elif mine:
                 self.own_unattached += length
                 if length != db_len:
@@ -390,6 +395,8 @@ class Model:
             if self.length_differs['network']:
                 out.append('claimed_length')
         else:
+            if self.no_file_row:
+                out.append('no_file_row')
             if self.shared_finished:
                 out.append('shared_blob')
             if self.length_differs['content']:
